@@ -67,7 +67,12 @@ P = {
  'C15': dict(claim=True, cat='proof', technique='Verus frame conditions + postconditions that are functions of (tables, stream data, arguments)',
    text="Reader calls leave tracks/moov/ftyp/size and the stream content unchanged (&mut self frame proved) and their results are specified purely in terms of the tables, the stream data and the arguments (never the stream position), with uniqueness lemmas, so any call history returns what a fresh reader returns. Muxing determinism not yet covered.",
    note=TRUST + " A failed call leaves the ghost `failed` flag set: later calls are covered only from a live stream."),
- 'C16': dict(claim=False, reason='Kani full-domain harnesses not built yet in this revision'),
+ 'C16': dict(claim=True, cat='proof', technique='Verus contracts against defining tables (spec/enums.rs, spec/codes.rs) on the extracted functions + loop-free Kani harnesses over the full symbolic domain of the compiled functions',
+   text=("Verus proves, for every input value, that AudioObjectType / SampleFreqIndex / ChannelConfig / DataType / AvcProfile / TrackType(four-byte) conversions return exactly what the defining tables prescribe and reject exactly the other values "
+         "(tables proved injective with range = valid set), that SampleFreqIndex::freq is the ISO table, that the 8.8 / 16.16 wrappers store numer = value * 2^8 / 2^16 and return it, that BoxType <-> u32 is the generated registry table, and that the AAC escape-coded object type uses 5+6 bits. "
+         "Kani (CBMC, no unwinding involved: loop-free harnesses over fully symbolic u8/u16/u32/[u8;4]) proves the same for the compiled code including the parts Verus assumes: FourCC <-> u32 <-> bytes <-> BoxType over all 2^32 codes, "
+         "language_code on all 26^3 lower-case triples and (thorough) language_string / language_code inverse on all 2^15 codes."),
+   note=TRUST + " FourCC::from_str is checked by Kani for ASCII strings up to 6 bytes only (bounded, labelled so in the evidence); Display impls (format machinery) and the &str-keyed TrackType/MediaType conversions are outside both tools' reach (string matching) and are not claimed."),
  'C17': dict(claim=False, reason='muxer totality contracts not built yet in this revision'),
  'C18': dict(claim=False, reason='metadata decoding contracts not built yet in this revision'),
 }
